@@ -116,6 +116,23 @@ class _Registered:
         return False
 
 
+_int_orders = {}
+
+
+def int_order(rows, beta=1.0):
+    """User cone written with INTEGER rows (as in the OrderingCone docstring): W has an integer dtype.  A `beta`
+    attribute is attached so that the default sample count can be computed as well."""
+    from vopy.order import PolyhedralConeOrder
+    from vopy.ordering_cone import OrderingCone
+
+    key = (tuple(tuple(int(x) for x in r) for r in rows), beta)
+    if key not in _int_orders:
+        cone = OrderingCone(np.array([[int(x) for x in r] for r in rows]))
+        cone.beta = beta
+        _int_orders[key] = PolyhedralConeOrder(cone)
+    return _int_orders[key]
+
+
 _theta_orders = {}
 
 
@@ -233,11 +250,28 @@ def gen(ctx):
         yield {"kind": "L", "noise_var": rng.choice([0.005, 0.01, 0.02, 0.04]), "eps": rng.choice([0.05, 0.1, 0.2]),
                "delta": rng.choice([0.05, 0.1]), "theta": rng.choice([60, 90, 120]), "K": rng.choice([2, 3, 4]),
                "mc": True, "runs": 1000, "seed": rng.randrange(10 ** 6)}
+    # --- tiny noise variances with correspondingly small eps (so that the default L is > 1): the guarantee must
+    # hold there as well, and the noise the problem really uses must be the configured one
+    tiny = [(nv, r, d, th, K) for nv in [1e-12, 1e-10, 1e-8, 1e-7, 1e-6, 1e-5, 1e-4]
+            for r in [0.5, 1.0, 2.0, 5.0] for d in [0.05, 0.1] for th in [60, 90, 120] for K in [2, 3, 8]]
+    if ctx.tier == "quick":
+        tiny = [t for t in tiny if t[2] == 0.1 and t[4] == 3 and (t[3] == 90 or t[1] == 1.0)]
+    for k, (nv, r, d, th, K) in enumerate(tiny):
+        if k % ctx.nworkers != ctx.worker:
+            continue
+        yield {"kind": "L", "noise_var": nv, "eps": r * math.sqrt(nv), "delta": d, "theta": th, "K": K,
+               "mc": nv == 1e-8 and r == 1.0 and th == 90, "runs": 600, "seed": 4242}
+    # --- the bundled "Test" data set through the real pipeline, orthant written with INTEGER rows
+    if ctx.worker == 0:
+        yield {"kind": "dataset", "dataset": "Test", "rows": [[1, 0], [0, 1]], "int_dtype": True, "beta": 1.0,
+               "eps": 0.1, "delta": 0.1, "noise_var": 0.0025, "seed": 7, "expect_P": [14, 22, 25, 30]}
+        yield {"kind": "dataset", "dataset": "Test", "rows": [[2, 1], [1, 2]], "int_dtype": True, "beta": 1.0,
+               "eps": 0.2, "delta": 0.1, "noise_var": 0.01, "seed": 11}
     # --- runs
     exact = ["orthant2", "acute2", "obtuse2", "skew2", "redundant2", "threefacet2"]
     for i in range(ctx.n(60, 1500)):
         shape = rng.choice(["lattice", "lattice", "ties", "float_theta", "default_L", "lattice3",
-                            "bigoffset", "bigoffset"])
+                            "bigoffset", "bigoffset", "fine", "fine"])
         K = rng.randint(1, 7)
         if shape == "lattice3":
             cone, m = rng.choice(["orthant3", "acute3", "fourfacet3"]), 3
@@ -267,8 +301,18 @@ def gen(ctx):
             case = {"kind": "run", "K": K, "L": L, "rounds": rounds, "shape": shape, "offset": off}
             if rng.random() < 0.5:
                 case["cone"] = rng.choice(exact)
+                case["int_dtype"] = rng.random() < 0.5
             else:
                 case["theta"] = rng.choice(THETAS)
+        elif shape == "fine":
+            # non-integer dyadic observations whose differences are mostly below one unit, on user cones written
+            # with integer rows: the cone matrix is given as an INTEGER-dtype array half of the time
+            b = rng.randint(10, 14)
+            K, L = max(K, 2), max(L, 1)
+            rounds = [[[840.0 * rng.randint(-6, 6) / 2 ** b for _ in range(2)] for _ in range(K)]
+                      for _ in range(L + extra)]
+            case = {"kind": "run", "cone": rng.choice(exact), "K": K, "L": L, "rounds": rounds, "shape": shape,
+                    "int_dtype": rng.random() < 0.7}
         elif shape == "float_theta":
             theta = rng.choice(THETAS)
             rounds = [[[rng.gauss(0, 1) for _ in range(2)] for _ in range(K)] for _ in range(L + extra)]
@@ -298,6 +342,8 @@ def run_case(ctx, case):
             _case_run(ctx, case)
         elif kind == "mc":
             _case_mc(ctx, case)
+        elif kind == "dataset":
+            _case_dataset(ctx, case)
         else:
             raise ValueError("unknown case kind")
 
@@ -324,6 +370,26 @@ def _case_L(ctx, case):
                       case)
         ctx.case_done(case, False)
         return
+    # cross-link with the noise law (C20 owns it in general): the guarantee is about "Gaussian noise of the
+    # CONFIGURED variance", and L is computed from the configured value, so the covariance the real problem
+    # object samples with (M M^T for its Cholesky factor M) must be noise_var * I.  The closed form below is
+    # evaluated with the variance the problem ACTUALLY uses.
+    var_act, var_differs = nv, False
+    M = getattr(getattr(algo, "problem", None), "noise_cholesky", None)
+    if M is None:
+        ctx.count("noise_cholesky_unavailable_info")
+    else:
+        M = np.asarray(M, dtype=float)
+        cov = M @ M.T
+        if cov.shape != (2, 2) or not np.all(np.abs(cov - nv * np.eye(2)) <= 1e-12 * nv):
+            var_differs = True
+            var_act = float(np.max(np.diag(cov))) if cov.ndim == 2 and cov.size else nv
+            ctx.violation("noise-law-differs-from-configured",
+                          f"the problem NaiveElimination samples from draws noise with covariance {cov.tolist()} "
+                          f"although noise_var = {nv!r} is configured (and the default L is computed from it)",
+                          case, kind="R", detail={"cov": cov.tolist(), "noise_var": nv})
+        else:
+            ctx.count("noise_law_matches_configured")
     ans = ctx.ask("L", bits(nv), bits(eps), bits(delta), bits(theta), "2", str(K)).split()
     if len(ans) != 5:
         raise RuntimeError(f"driver answered {ans!r}")
@@ -372,11 +438,11 @@ def _case_L(ctx, case):
     if L != Lprop:
         ctx.count("L_below_property" if L < Lprop else "L_above_property")
     # (R) failure probability of the worst-case instance with the code's L
-    if L < Lprop and not border_p:
+    if (L < Lprop and not border_p) or var_differs:
         if L <= 0:
             p, how = 1.0, "exact"
         else:
-            p, how = p_fail_closed_form(theta, eps, nv, L, cone.alpha)
+            p, how = p_fail_closed_form(theta, eps, var_act, L, cone.alpha)
         ctx.count("closed_form_evaluated")
         if p > delta * (1 + 1e-3) + 1e-7:
             detail = {"noise_var": nv, "eps": eps, "delta": delta, "K": K, "theta": theta, "L_code": L,
@@ -398,8 +464,10 @@ def _case_L(ctx, case):
                                   f"Monte-Carlo frequency {f:.4f} outside the 5-sigma band of the closed form {p:.4f}",
                                   case, kind="F", detail=detail)
             if confirmed:
-                variance_bug = which == "mirror" and nv != 1.0
-                key = "naive-L-uses-variance-not-std" if variance_bug else "naive-pac-fails"
+                variance_bug = which == "mirror" and nv != 1.0 and not var_differs
+                key = ("naive-L-uses-variance-not-std" if variance_bug else
+                       "naive-pac-fails-under-actual-noise" if var_differs and L >= Lprop else "naive-pac-fails")
+                detail["noise_variance_actually_used"] = var_act
                 ctx.violation(
                     key,
                     f"default L = {L} (property's formula: {Lprop}) for noise_var={nv}, eps={eps}, delta={delta}, "
@@ -438,8 +506,10 @@ def _case_run(ctx, case):
     exact = "cone" in case
     if exact:
         Wl, _ = EXACT_CONES[case["cone"]]
-        order = real_order(Wl)
+        order = int_order(Wl) if case.get("int_dtype") else real_order(Wl)
         m = len(Wl[0])
+        if case.get("int_dtype"):
+            ctx.count("runs_integer_dtype_cone")
     else:
         order = theta_order(case["theta"])
         m = 2
@@ -552,3 +622,65 @@ def _case_run(ctx, case):
     ctx.count("runs_default_L" if case["L"] is None else "runs_given_L")
     ctx.count("run_L_%s" % (L if L < 9 else "9+"))
     ctx.case_done(case, nontrivial, canon=["run", case.get("cone", case.get("theta")), K, L, case["rounds"]])
+
+
+def _case_dataset(ctx, case):
+    """The real pipeline (bundled Dataset -> ProblemFromDataset -> NaiveElimination with its default L) under a
+    user cone, seeded real noise.  The observations the problem returns are recorded through a proxy; after
+    rounds 1, 2 and the last one (R) `P` must satisfy C13's relation w.r.t. their exact means (skipped when a
+    dominance decision is within 1e-9 of a tie, since the float mean is rounded)."""
+    from vopy.algorithms import NaiveElimination
+
+    order = int_order(case["rows"], case.get("beta", 1.0)) if case.get("int_dtype") else real_order(case["rows"])
+    W = np.array(order.ordering_cone.W, dtype=float)
+    ws = core.qmat(W)
+    state = np.random.get_state()
+    recorded = []
+    try:
+        np.random.seed(int(case["seed"]))
+        algo = NaiveElimination(case["eps"], case["delta"], case["dataset"], order, case["noise_var"])
+        L, K = int(algo.L), int(algo.K)
+        if L > 400:
+            raise RuntimeError("dataset case with L > 400: choose cheaper parameters")
+        real_eval = algo.problem.evaluate
+
+        def recording(x, *a, **kw):
+            y = real_eval(x, *a, **kw)
+            recorded.append(np.array(y, dtype=float, copy=True))
+            return y
+
+        algo.problem.evaluate = recording
+        probes = {}
+        guard = 0
+        while True:
+            done = bool(algo.run_one_step())
+            guard += 1
+            if len(recorded) in (1, 2, L) and len(recorded) not in probes:
+                probes[len(recorded)] = [int(i) for i in algo.P]
+            if done or guard > L + 2:
+                break
+    except Exception as e:
+        ctx.violation("run-crash:" + core.exc_key(e), f"NaiveElimination run raised {type(e).__name__}: {e}", case)
+        ctx.case_done(case, False)
+        return
+    finally:
+        np.random.set_state(state)
+    for t, P in sorted(probes.items()):
+        obs = np.stack(recorded[:t], axis=1)
+        ss = core.qmats([obs[i] for i in range(K)])
+        mg = ctx.ask("margin", ws, ss)
+        if not (mg == "none" or float(core.parse_q(mg)) > 1e-9 * max(1.0, float(np.ptp(obs)))):
+            ctx.count("step_not_robust_not_compared")
+            continue
+        if ctx.ask("Pspec", ws, ss, core.nats(P)) != "ok":
+            ctx.violation("P-not-pareto-of-means",
+                          f"{case['dataset']} data set, cone rows {case['rows']} (integer dtype: "
+                          f"{bool(case.get('int_dtype'))}): algorithm.P = {P} after round {t} is not a Pareto set of "
+                          "the per-design means of the observations the problem returned", case, kind="R",
+                          detail={"round": t, "P": P, "model": ctx.ask("P", ws, ss)})
+            break
+        ctx.count("dataset_probe_ok")
+    if "expect_P" in case and probes.get(L) is not None:
+        ctx.count("dataset_final_P_as_expected_info" if probes[L] == case["expect_P"]
+                  else "dataset_final_P_differs_from_expected_info")
+    ctx.case_done(case, True, canon=["dataset", case["dataset"], case["rows"], case["seed"]])
